@@ -96,7 +96,7 @@ CLAIMS["C10"] = dict(
     ref="5 C10")
 CLAIMS["C01"] = dict(
     text="Lean theorems (data-plane invariants): with the ring = ghost stream minus the acknowledged prefix and the segment queue addressing a contiguous range of it, every payload send_data! gathers for any queued segment, for every ring wrap position, is exactly written[offset_abs, offset_abs+size) and never a Bug* error; ack processing for any header + truncate_front of the reported bytes, segmentation, writes and probe pops all re-establish that coupling; retransmissions carry the same bytes; a reassembly slot holds exactly what was stored for its position, duplicates never overwrite, slots reach the reader in order (C04). Segments/TxRing/Rx differentials with position-coded payloads + lockstep correspondence + stream-content oracle.",
-    note=L2NOTE + "PARTIAL: the end-to-end induction over two endpoints and an adversarial network (read is a prefix of written for every schedule) is not mechanised; it composes these invariants with C04, C09 and the network assumption (delivered datagrams were sent, staleness below the tolerance). Known limitation (DESIGN D2): re-segmentation of an expired probe whose first copy was delivered.",
+    note=L2NOTE + "END-TO-END (Props/C01E2E.lean): for every event list (each data packet may arrive any number of times, in any order, or never, interleaved with flushes and reads of any size) and every buffer configuration, the bytes the application has read are a prefix of pkt 0 ++ pkt 1 ++ ... (reader_gets_prefix_of_packet_stream, invariant over the real reassembly model by induction over events), and with packets being consecutive slices of the written stream (what the sender theorems establish) a prefix of the written stream (read_is_prefix_of_written_slices). PARTIAL: that theorem works on ghost packet indices (16-bit offsets are C09), data packets only (FIN/errors: C17/C03), and takes the sender's labelling as a hypothesis discharged per segment by wire_payload_is_stream_slice / content_stable - the two-endpoint product with the full sender state machine is not one theorem; D2 (known finding) breaks the labelling for a re-split probe; it composes these invariants with C04, C09 and the network assumption (delivered datagrams were sent, staleness below the tolerance). Known limitation (DESIGN D2): re-segmentation of an expired probe whose first copy was delivered.",
     technique="Lean 4 proof (sender coupling invariant, receiver slot lemmas) + differentials + lockstep correspondence + content oracle",
     ref="5 C01")
 
